@@ -514,6 +514,29 @@ pub fn cmd_comp(a: &Args) {
         }
     }
 
+    // ---------------------------------------------------------------- encoder-made frames after a failed write
+    // (the reported size must equal the bits written whatever happened before on this thread)
+    for (si, (what, stream)) in crate::sink::component_streams(seed, if thorough { 12 } else { 4 }).iter().enumerate() {
+        let bps = stream.stream_info().bits_per_sample();
+        for k in 0..stream.frame_count().min(2) {
+            let f = stream.frame(k).unwrap();
+            for fail_at in [0usize, 3, 40, 100_000] {
+                let mut u = crate::sink::UserSink::new(Some(fail_at), false);
+                let failed = f.write(&mut u).is_err();
+                let indep = matches!(f.header().channel_assignment(), ChannelAssignment::Independent(_));
+                if !indep {
+                    continue; // (side channels have bps + 1; the TLC side of this event assumes one width)
+                }
+                o.classes.insert(format!("frame-after-failed-write/{si}/{k}/{fail_at}"));
+                let desc = format!("frame {k} of {what} written again after a write into a sink failing at operation {fail_at} (failed: {failed})");
+                let fc = f.clone();
+                let si_info = stream.stream_info().clone();
+                o.observe("frame", desc, f.block_size(), bps, 0, json!({"ch": f.subframe_count(), "nsub": f.subframe_count(), "sub_bs": f.block_size(), "sub_bps": bps}),
+                    || Ok(fc), |b| parser::frame::<nom::error::Error<&[u8]>>(&si_info, true)(b).ok().map(|(_, g)| dbg_and_bytes(&g)));
+            }
+        }
+    }
+
     // ---------------------------------------------------------------- StreamInfo / unknown metadata
     for &rate in &[0usize, 1, 44100, 96000, 96001, 655350, 1 << 20, (1 << 32) + 44100, big] {
         for &ch in &[0usize, 1, 2, 8, 9, 256 + 2, big] {
